@@ -4,9 +4,9 @@ import PasslibVerif.Gen.PyUnicode
    script, single underscores between digits.  Tables come from the running interpreter. -/
 namespace Py
 
-def isSpaceCp (c : Nat) : Bool := Gen.PyUnicode.intSpace.contains c
+@[irreducible] def isSpaceCp (c : Nat) : Bool := Gen.PyUnicode.intSpace.contains c
 
-def decimalValue (c : Nat) : Option Nat :=
+@[irreducible] def decimalValue (c : Nat) : Option Nat :=
   let i := Gen.PyUnicode.decimalCps.idxOf c
   if i < Gen.PyUnicode.decimalCps.length then some (Gen.PyUnicode.decimalVals.getD i 0) else none
 
